@@ -154,7 +154,7 @@ func (br *xmpReader) readAttribute(tag *Tag) (attr Attribute, err error) {
 // readAttrValue reada an Attributes value from the Tag.
 // Needs improvement for performance
 func (br *xmpReader) readAttrValue(tag *Tag) (buf []byte, err error) {
-	d, i := 0, 2
+	d := 0
 	s := maxTagValueSize / 2
 	for {
 		if buf, err = br.Peek(s); err != nil {
@@ -162,8 +162,18 @@ func (br *xmpReader) readAttrValue(tag *Tag) (buf []byte, err error) {
 			return
 		}
 
-		if buf[0] == '=' && (buf[1] == '"' || buf[1] == '\'') {
-			delim := buf[1]
+		// Eq ::= S? '=' S? - white space may surround the equals sign.
+		e := 0
+		for e < len(buf) && isSpace(buf[e]) {
+			e++
+		}
+		q := e + 1
+		for q < len(buf) && isSpace(buf[q]) {
+			q++
+		}
+		if e < len(buf) && buf[e] == '=' && q < len(buf) && (buf[q] == '"' || buf[q] == '\'') {
+			delim := buf[q]
+			i := q + 1
 			if b := bytes.IndexByte(buf[i:], delim); b >= 0 {
 				end := i + b
 				// White space may separate the value from what ends the tag.
@@ -188,7 +198,7 @@ func (br *xmpReader) readAttrValue(tag *Tag) (buf []byte, err error) {
 				if _, err = br.Discard(d); err != nil {
 					err = errors.Wrap(err, "Attr Value (discard)")
 				}
-				return buf[2:end], err
+				return buf[q+1 : end], err
 			}
 		}
 		s += maxTagValueSize
